@@ -179,6 +179,7 @@ func runC01(r *core.Run) { runTree(r, treeOpts{}) }
 type treeOpts struct {
 	order    bool // C06: order oracles after every event + redelivery leg with passive receivers
 	fullSync bool // C09: full-sync probes at sampled quiescent points
+	auth     bool // C02: authenticity oracles around every delivery
 }
 
 func runTree(r *core.Run, o treeOpts) {
